@@ -242,7 +242,7 @@ class MempoolEngine:
         c, w, rng = self.case, self.world, self.rng
         if c.get('colls'):
             w.use_collisions(c['colls'], rng)
-        grow_chain(w, c.get('n0', 12) + 1, rng)
+        grow_chain(w, c.get('n0', 12) + 1, rng, big=c.get('big_block'))
         self.install()
         srv = harness.Server(w, dbdir, flushvec=c.get('flushvec'), prefetch=c.get('prefetch', 100), txindex=c.get('txindex', False),
                              env_extra={'REORG_LIMIT': c.get('reorg_limit', 5)})
